@@ -22,7 +22,7 @@ from puresnmp.adt import (
     V3Flags,
 )
 from puresnmp.credentials import V3, Credentials
-from puresnmp.exc import SnmpError
+from puresnmp.exc import ErrorResponse, SnmpError
 from puresnmp.pdu import GetRequest, PDUContent, Report
 from puresnmp.plugins.security import SecurityModel
 from puresnmp.transport import MESSAGE_MAX_SIZE
@@ -501,7 +501,15 @@ class UserSecurityModel(
                     "The security-level of the incoming message is lower "
                     "than the security-level of the user!"
                 )
-            validate_usm_message(message)
+            try:
+                validate_usm_message(message)
+            except ErrorResponse as exc:
+                # An error-status proves nothing either. Inside a walk a
+                # "noSuchName" would even end the walk without any error.
+                raise AuthenticationError(
+                    "Received an unauthenticated report from the remote "
+                    "device!"
+                ) from exc
             raise AuthenticationError(
                 "Received an unauthenticated report from the remote device!"
             )
